@@ -164,8 +164,10 @@ def check_predict(w, rep, f, mod):
     if x1 is None or W1 is None:
         rep.fail("C11.valid", "predict outputs x1, W1", "outputs %s" % f.out_names, where=W)
         return
-    good, why = is_shadowed(w.sl(x1, 0, 3))
-    rep.check("C11.valid", "predict: propagated MRP passes through the shadow switch after the RK4 step", good, "predicted attitude is not shadow-switched: %s" % why, where=W)
+    Mr = w.G("SO3Mrp")
+    (fp, seen) = capture_calls(w, "shadow_if_necessary", lambda: w.callf(mod["predict"]), self_is=Mr)
+    good = bool(seen) and isinstance(seen[-1].get("arg"), Instance) and isinstance(fp, cm.FunctionVal) and mat_equal(w.sl(fp.outs[0], 0, 3), w.param(seen[-1]["arg"]))
+    rep.check("C11.valid", "predict: propagated MRP passes through the shadow switch after the RK4 step and is written back", good, "predicted attitude is not shadow-switched after integration", where=W)
     rep.check("C11.valid", "predict: gyro bias is constant over a noise-free prediction", mat_equal(w.sl(x1, 3, 6), w.sl(I["x"], 3, 6)), "bias changes in the noise-free prediction", where=W)
     n = W1.r
     upper = [(i, j) for i in range(n) for j in range(n) if j > i and W1.cells[i][j].t]
